@@ -27,7 +27,7 @@ func ConvertLabelQuery(terms []*v1alpha1.LabelTerm) ([]resource.LabelQueryOption
 
 		switch term.Op {
 		case v1alpha1.LabelTerm_EQUAL:
-			labelOpts = append(labelOpts, resource.LabelEqual(term.Key, term.Value[0], opts...))
+			labelOpts = append(labelOpts, singleValueTerm(term, resource.LabelOpEqual))
 		case v1alpha1.LabelTerm_EXISTS:
 			labelOpts = append(labelOpts, resource.LabelExists(term.Key, opts...))
 		case v1alpha1.LabelTerm_NOT_EXISTS: //nolint:staticcheck
@@ -35,19 +35,34 @@ func ConvertLabelQuery(terms []*v1alpha1.LabelTerm) ([]resource.LabelQueryOption
 		case v1alpha1.LabelTerm_IN:
 			labelOpts = append(labelOpts, resource.LabelIn(term.Key, term.Value, opts...))
 		case v1alpha1.LabelTerm_LT:
-			labelOpts = append(labelOpts, resource.LabelLT(term.Key, term.Value[0], opts...))
+			labelOpts = append(labelOpts, singleValueTerm(term, resource.LabelOpLT))
 		case v1alpha1.LabelTerm_LTE:
-			labelOpts = append(labelOpts, resource.LabelLTE(term.Key, term.Value[0], opts...))
+			labelOpts = append(labelOpts, singleValueTerm(term, resource.LabelOpLTE))
 		case v1alpha1.LabelTerm_LT_NUMERIC:
-			labelOpts = append(labelOpts, resource.LabelLTNumeric(term.Key, term.Value[0], opts...))
+			labelOpts = append(labelOpts, singleValueTerm(term, resource.LabelOpLTNumeric))
 		case v1alpha1.LabelTerm_LTE_NUMERIC:
-			labelOpts = append(labelOpts, resource.LabelLTENumeric(term.Key, term.Value[0], opts...))
+			labelOpts = append(labelOpts, singleValueTerm(term, resource.LabelOpLTENumeric))
 		default:
 			return nil, status.Errorf(codes.Unimplemented, "unsupported label query operator: %v", term.Op)
 		}
 	}
 
 	return labelOpts, nil
+}
+
+// singleValueTerm builds a term for an operator which takes a single value.
+//
+// The value list is passed through as is, so a term without a value is evaluated
+// the same way as by the state itself (it never matches) instead of being indexed.
+func singleValueTerm(term *v1alpha1.LabelTerm, op resource.LabelOp) resource.LabelQueryOption {
+	return func(q *resource.LabelQuery) {
+		q.Terms = append(q.Terms, resource.LabelTerm{
+			Key:    term.Key,
+			Value:  term.Value,
+			Op:     op,
+			Invert: term.Invert,
+		})
+	}
 }
 
 // ConvertIDQuery converts protobuf representation of IDQuery to state representation.
